@@ -38,6 +38,7 @@ def _pass(types, defs, seed, junk_per_type):
     rng = random.Random(seed)
     env = vs.make_env(defs)
     events, meta = [], []
+    respell: list = []
     warnings.simplefilter("ignore")
     clear_typelib_caches()
     for T in types:
@@ -66,6 +67,18 @@ def _pass(types, defs, seed, junk_per_type):
             out, _ = vs.out_of(typelib.unmarshal, ann, x)
             events.append({"ev": "unmarshal", "T": T, "out": out})
             meta.append((kind, ident, repr(x)[:120], input_class(x)))
+        if T["k"] in ("coll", "map", "tup", "union") and inputs:
+            respell.append((T, [i for i in inputs if i[0] != "junk"][:3] + inputs[:2]))
+    # the same annotations spelled anew for every call (`unmarshal(list[int], x)` written inline: the annotation object dies with
+    # the call); three rounds over a sample, other types in between
+    sample = rng.sample(respell, min(len(respell), 60))
+    for rnd in range(3):
+        rng.shuffle(sample)
+        for T, ins in sample:
+            for kind, ident, x in ins:
+                out, _ = vs.out_of(typelib.unmarshal, env.annotation(T), x)
+                events.append({"ev": "unmarshal", "T": T, "out": out})
+                meta.append((kind + ":respelled", ident, repr(x)[:120], input_class(x)))
     return events, meta
 
 
